@@ -146,6 +146,27 @@ for _p, _t in EXTRA3.items():
     if _p in CLAIMED:
         CLAIMED[_p]["text"] += _t
 
+EXTRA4 = {
+ "C01": " After mutation round 4: every field of Query is carried into the per-dimension copy or is an enumerated reset (c08.copy-fields); the selector's step dispatch (c09.step-dispatch); the stages append onto storage of their own (stage.kept-fresh).",
+ "C02": " After mutation round 4: c08.copy-fields, c09.step-dispatch, stage.kept-fresh; nested statements are prepared over the data as it is (c17.prepare-data).",
+ "C03": " After mutation round 4: stage.kept-fresh.",
+ "C04": " After mutation round 4: BuildJoin builds the left operand first and the right second, and every success path runs the join executor and keeps its rows (c04.build-join); the key text is the decimal text of the value (TextOf) — the %v text was a defect of the pinned tree (fixed: 8502fd2); c09.cache-key.",
+ "C05": " After mutation round 4: the selector cache is keyed by the exact text (c09.cache-key).",
+ "C06": " After mutation round 4: only execAndPostProcess callers run a union branch (c12.exec-callers); c09.cache-key; stage.kept-fresh.",
+ "C07": " After mutation round 4: the scan and the stage chain of exec (exec.pipeline, exec.kept-fresh, stage.kept-fresh: a CTE read twice is not overwritten by its first reader); c08.copy-fields; c17.prepare-data; c09.cache-key.",
+ "C09": " After mutation round 4: a column reference goes through the selector reader, never through a literal-key shortcut (c12.unwrap-table).",
+ "C12": " After mutation round 4: immediate functions are refused under ASYNC/SPIN whatever the spelling (c14.immediate-registry); pending post-processors are dropped only behind the loop that runs them (c14.drain-after-run); no state between the query text and the parsed statement (parse.pure).",
+ "C13": " After mutation round 4: parse.pure; c18.pure (built-ins keep no package-level state).",
+ "C14": " After mutation round 4: c14.drain-after-run; c18.pure; c12.exec-callers; exec.pipeline.",
+ "C15": " After mutation round 4: the join key text is TextOf (fixed defect 8502fd2).",
+ "C16": " After mutation round 4: parse.pure (no statement or rewrite cache keyed by the text or a normalised form of it).",
+ "C17": " After mutation round 4: parse.pure.",
+ "C20": " After mutation round 4: every row is projected before the window is cut (exec.pipeline); a join builds its left operand first (c04.build-join).",
+}
+for _p, _t in EXTRA4.items():
+    if _p in CLAIMED:
+        CLAIMED[_p]["text"] += _t
+
 _pending = "rule set for this property is not implemented yet in this round (see DESIGN.md section 2 for the planned structural rules)"
 for p in ["C01","C02","C03","C04","C05","C06","C07","C09","C10","C11","C12","C13","C14","C15","C16","C17","C18","C19","C20"]:
     if p not in CLAIMED:
